@@ -35,7 +35,14 @@ class Ledger:
                 use_cache = thunk.keywords.get('use_cache')
             except Exception:
                 use_cache = None
-            orig(proc)
+            try:
+                orig(proc)
+            finally:
+                # A forked child never returns from start() (Popen._launch ends in os._exit).  If an exception
+                # escapes in the child anyway (a real SIGINT in the few instructions between fork() and the
+                # child's try block), it must not unwind into a clone of the harness.
+                if os.getpid() != ledger.pid:
+                    os._exit(98)
             if os.getpid() == ledger.pid and not is_mgr:
                 try:
                     pidfd = os.pidfd_open(proc.pid)
